@@ -309,9 +309,16 @@ def _request(gen, fam, method, args, style='wrapped'):
     elif fam == 'yaml':
         import yaml
         body = yaml.safe_dump(dict_body(method, args, fam), allow_unicode=True).encode('utf8'); env['CONTENT_TYPE'] = 'text/yaml'
-    elif fam == 'msgpack':
+    elif fam in ('msgpack', 'msgpack_bin'):
         import msgpack
-        d = dict_body(method, args, fam)
+        d = dict_body(method, args, 'msgpack')
+        if fam == 'msgpack_bin':
+            def as_bin(x):          # every text LEAF as bin (keys stay text)
+                if isinstance(x, str): return x.encode('utf8')
+                if isinstance(x, dict): return {k: as_bin(v) for k, v in x.items()}
+                if isinstance(x, list): return [as_bin(v) for v in x]
+                return x
+            d = as_bin(d)
         body = msgpack.packb({method.encode('utf8'): d[method]}, use_bin_type=True); env['CONTENT_TYPE'] = 'application/x-msgpack'
     elif fam == 'http':
         body = b''
@@ -334,7 +341,7 @@ def protocols(fam, validator='soft', **kw):
     from spyne.protocol.msgpack import MessagePackDocument
     from spyne.protocol.http import HttpRpc
     P = {'xml': XmlDocument, 'soap11': Soap11, 'soap12': Soap12, 'json': JsonDocument, 'yaml': YamlDocument,
-         'msgpack': MessagePackDocument, 'http': HttpRpc}[fam]
+         'msgpack': MessagePackDocument, 'msgpack_bin': MessagePackDocument, 'http': HttpRpc}[fam]
     out = JsonDocument if fam == 'http' else P
     return P(validator=validator, **kw), out()
 
